@@ -207,6 +207,23 @@ fn list_nodes(d: &Domain) -> Result<(Listing, Vec<NodeState<S>>), Failure> {
     Ok((l, states))
 }
 
+/// Open finding shared with C04 (`cleanup.blocked_by_half_created_tag_of_dead_node`): the dead node's
+/// directory still holds a service / port tag in creation (locked, mode 600) state; the cleanup does not
+/// see such a tag, cannot remove the non-empty directory and fails with InternalError for ever.
+const HALF_CREATED_TAG: &str = "node.dead_not_collectable.half_created_tag_of_dead_node";
+
+const CLEANER_DIED_IN_TOKEN_REMOVAL: &str = "cleaners.leftover.cleaner_died_while_removing_monitor_token";
+const DETAILS_GONE: &str = "node.dead_remains.cleanup_uses_global_config_when_node_details_are_gone";
+
+fn dead_node_holds_locked_tag(d: &Domain, id: u128) -> Option<Vec<String>> {
+    use std::os::unix::fs::PermissionsExt;
+    let dir = d.root.join("nodes").join(format!("{id}"));
+    let files: Vec<String> = std::fs::read_dir(&dir)
+        .map(|rd| rd.flatten().map(|e| format!("{} (mode {:o})", e.file_name().to_string_lossy(), e.metadata().map(|m| m.permissions().mode() & 0o777).unwrap_or(0))).collect())
+        .unwrap_or_default();
+    if files.iter().any(|f| (f.contains(".service_tag") || f.contains(".port_tag")) && f.contains("mode 600")) { Some(files) } else { None }
+}
+
 /// true when the victim has already unlinked its own '.node_monitor' state file (orderly
 /// destruction in progress) while its context / owner-lock files still exist
 fn monitor_token_half_removed(d: &Domain) -> bool {
@@ -308,9 +325,15 @@ fn node_crash(c: &Case, obs: &mut Obs) -> Result<(), Failure> {
             if let NodeState::Dead(v) = st {
                 obs.nontrivial = true;
                 obs.class("crash_reported_dead");
+                let id = v.id().value();
                 match v.blocking_remove_stale_resources(core::time::Duration::from_millis(200)) {
                     Ok(()) | Err(NodeCleanupFailure::ResourcesAlreadyCleanedUp) => {}
-                    Err(e) => fail!("node.dead_not_collectable", "killed at boundary {}: reported Dead but not collectable: {e:?}", c.k),
+                    Err(e) => {
+                        if let Some(files) = dead_node_holds_locked_tag(&d, id) {
+                            fail!(HALF_CREATED_TAG, "killed at boundary {}: reported Dead but not collectable: {e:?}; the node directory holds a tag in creation state: {files:?}", c.k);
+                        }
+                        fail!("node.dead_not_collectable", "killed at boundary {}: reported Dead but not collectable: {e:?}", c.k)
+                    }
                 }
             }
         }
@@ -318,6 +341,15 @@ fn node_crash(c: &Case, obs: &mut Obs) -> Result<(), Failure> {
             obs.class("crash_reported_absent");
         }
         let (l2, _) = list_nodes(&d)?;
+        if !l2.dead.is_empty() && l2.alive.is_empty() && l2.other.is_empty() && l2.dead.iter().all(|id| !d.root.join("nodes").join(format!("{id}")).join(format!("{}node.details", d.prefix)).exists()) {
+            // open finding shared with C04 (`cleanup.uses_global_config_when_node_details_are_gone`)
+            fail!(
+                DETAILS_GONE,
+                "killed at boundary {} during its own node destruction after node.details were removed: the cleanup falls back to Config::global_config(), reports success / 'already cleaned up', and the node stays listed as dead: {:?}",
+                c.k,
+                l2.dead
+            );
+        }
         ensure!(l2.alive.is_empty() && l2.dead.is_empty() && l2.other.is_empty(), "node.dead_remains", "after cleanup the domain lists {l2:?}");
         Ok(())
     })();
@@ -390,6 +422,64 @@ fn node_interleave(c: &Case, obs: &mut Obs) -> Result<(), Failure> {
     r
 }
 
+/// file names without the domain prefix and without the unique ids (decimal runs of >= 10 digits)
+fn normalised(left: &[String], prefix: &str) -> Vec<String> {
+    let mut v: Vec<String> = left
+        .iter()
+        .map(|l| {
+            let l = l.replace(prefix, "P_");
+            let mut out = String::new();
+            let mut digits = String::new();
+            for ch in l.chars().chain(std::iter::once('\0')) {
+                if ch.is_ascii_digit() {
+                    digits.push(ch);
+                } else {
+                    if digits.len() >= 10 {
+                        out.push('#');
+                    } else {
+                        out.push_str(&digits);
+                    }
+                    digits.clear();
+                    if ch != '\0' {
+                        out.push(ch);
+                    }
+                }
+            }
+            out
+        })
+        .collect();
+    v.sort();
+    v
+}
+
+/// the same victim killed at the same boundary, cleaned up by this process alone
+fn lone_cleaner_leftovers(k: u64) -> Result<Vec<String>, Failure> {
+    let mut d = Domain::new();
+    d.config.global.creation_timeout = core::time::Duration::from_millis(100);
+    let r = (|| {
+        let Some(mut v) = vtrace::run_to_step(&exe(), &args(&d, "solo_pubsub", ""), &[], k as usize).map_err(h)? else {
+            return Ok(vec![]);
+        };
+        v.kill();
+        let (_, states) = list_nodes(&d)?;
+        for st in states {
+            if let NodeState::Dead(v) = st {
+                let _ = v.try_remove_stale_resources();
+            }
+        }
+        Ok(normalised(&d.leftovers(), &d.prefix))
+    })();
+    d.cleanup();
+    r
+}
+
+struct RemoveDirOnDrop(std::path::PathBuf);
+impl Drop for RemoveDirOnDrop {
+    fn drop(&mut self) {
+        let _ = std::fs::remove_dir_all(&self.0);
+    }
+}
+
 /// Racing cleaners: a dead node (victim killed in the middle of a pub-sub lifecycle), 2..4
 /// cleaner processes advanced call-by-call by the generated schedule.
 fn cleaners_race(c: &Case, obs: &mut Obs) -> Result<(), Failure> {
@@ -407,10 +497,16 @@ fn cleaners_race(c: &Case, obs: &mut Obs) -> Result<(), Failure> {
             return Ok(());
         }
         let n = c.cleaners.clamp(2, 4) as usize;
+        let mut pending_known: Option<Failure> = None;
         let mut ts: Vec<Tracee> = vec![];
         let mut outs = vec![];
+        // the cleaners' reports live next to the domain root, not in it (the root is scanned for leftovers)
+        let outdir = d.root.with_extension("cleaner-reports");
+        std::fs::create_dir_all(&outdir).ok();
+        let _rm = RemoveDirOnDrop(outdir.clone());
+        let dead_ids = l.dead.clone();
         for i in 0..n {
-            let out = d.root.join(format!("cleaner{i}.out"));
+            let out = outdir.join(format!("cleaner{i}.out"));
             ts.push(Tracee::spawn(&exe(), &args(&d, "cleaner", out.to_str().unwrap()), &[]).map_err(h)?);
             outs.push(out);
         }
@@ -418,7 +514,10 @@ fn cleaners_race(c: &Case, obs: &mut Obs) -> Result<(), Failure> {
         let mut killed: Option<usize> = None;
         let mut overlapped = false;
         let mut started = vec![false; n];
-        let mut sched = c.schedule.iter().cycle();
+        // the generated schedule, repeated; one step for every cleaner is appended to each round because
+        // the generated part may name only some of the cleaners (the others would never finish)
+        let effective: Vec<u8> = c.schedule.iter().copied().chain(0..n as u8).collect();
+        let mut sched = effective.iter().cycle();
         let mut budget = 20_000;
         while ts.iter().any(|t| t.is_alive()) && budget > 0 {
             budget -= 1;
@@ -458,6 +557,11 @@ fn cleaners_race(c: &Case, obs: &mut Obs) -> Result<(), Failure> {
                 if res == "Ok(())" {
                     performed += 1;
                 } else {
+                    if res.contains("InternalError") {
+                        if let Some(files) = dead_ids.iter().find_map(|id| dead_node_holds_locked_tag(&d, *id)) {
+                            fail!(HALF_CREATED_TAG, "cleaner {i} was told {res}; the dead node's directory holds a tag in creation state: {files:?}");
+                        }
+                    }
                     ensure!(
                         res.contains("AnotherInstanceIsCleaningUpTheNode") || res.contains("ResourcesAlreadyCleanedUp"),
                         "cleaners.unexpected_result",
@@ -485,11 +589,31 @@ fn cleaners_race(c: &Case, obs: &mut Obs) -> Result<(), Failure> {
         }
         let (l2, _) = list_nodes(&d)?;
         ensure!(l2.alive.is_empty() && l2.dead.is_empty() && l2.other.is_empty(), "cleaners.dead_remains", "after the race the domain lists {l2:?}");
-        let left = d.leftovers();
+        let mut left = d.leftovers();
+        if killed.is_some() && !left.iter().any(|l| l.ends_with(".node_monitor")) {
+            // open finding shared with C04 (`leftover.cleaner_died_while_removing_monitor_token`): the killed
+            // cleaner had unlinked the dead node's state file but not yet its owner-lock / context file
+            let is_remnant = |l: &String| l.starts_with("nodes/") && l.matches('/').count() == 1 && (l.ends_with(".node_monitor_context") || l.ends_with(".node_monitor_owner_lock"));
+            let remnants: Vec<String> = left.iter().filter(|l| is_remnant(l)).cloned().collect();
+            if !remnants.is_empty() {
+                left.retain(|l| !remnants.contains(l));
+                pending_known = Some(Failure::new(CLEANER_DIED_IN_TOKEN_REMOVAL, format!("cleaner {killed:?} was killed while removing the dead node's monitoring token; what it had not yet unlinked stays for ever, no listing finds the node again: {remnants:?}")));
+            }
+        }
         if !left.is_empty() {
-            fail!("cleaners.leftover", "resources remain after the race (killed cleaner {killed:?}): {left:?}");
+            // What a crash at this point leaves behind even when ONE undisturbed cleaner handles it is
+            // C04's subject (and listed there); the race must not leave more than that.
+            let lone = lone_cleaner_leftovers(c.k)?;
+            let norm = normalised(&left, &d.prefix);
+            if norm != lone {
+                fail!("cleaners.leftover", "resources remain after the race (killed cleaner {killed:?}): {left:?}; a single undisturbed cleaner at the same crash point leaves {lone:?}");
+            }
+            obs.class("leftover_same_as_with_a_lone_cleaner");
         }
         obs.nontrivial = overlapped;
+        if let Some(f) = pending_known {
+            return Err(f);
+        }
         Ok(())
     })();
     d.cleanup();
@@ -538,7 +662,11 @@ fn exec(ctx: &mut Ctx, part: &str, c: &Case, guard_steps: &[vtrace::Step]) {
             return;
         }
         if f.signature.starts_with("harness.") {
-            ctx.inconclusive(format!("{}: {}", f.signature, f.message));
+            // a tracing hiccup decides nothing about the property: the case is discarded and counted
+            // (more than 1 % discarded cases make the run inconclusive)
+            ctx.class("case_discarded_harness_problem", 1);
+            ctx.note(format!("discarded: {}: {} (first such case: {})", f.signature, f.message, serde_json::to_string(c).unwrap_or_default()));
+            ctx.count_discarded();
             return;
         }
         ctx.violation(part, &f, serde_json::to_value(c).unwrap());
@@ -627,9 +755,13 @@ fn body(ctx: &mut Ctx) {
         let mut windows: Vec<u64> = (first_drop.saturating_sub(1)..=last).collect();
         let create_len = node_only_steps.iter().filter(|s| s.phase == "node_create").count() as u64;
         windows.extend((create_len / 2)..create_len);
+        // quick: every second observer position (which half depends on the seed) and advances 0, 1, 3;
+        // thorough: the full product
+        let (j_stride, j_off) = if ctx.quick() { (2usize, ctx.seed % 2) } else { (1, 0) };
+        let advs: Vec<u64> = if ctx.quick() { vec![0, 1, 3] } else { (0..=max_adv).collect() };
         for k in windows {
-            for j in 0..=lister_steps {
-                for adv in 0..=max_adv {
+            for j in (j_off..=lister_steps).step_by(j_stride) {
+                for &adv in &advs {
                     i += 1;
                     if ctx.mine(i) {
                         let mut c = base("node_only", k);
@@ -640,7 +772,9 @@ fn body(ctx: &mut Ctx) {
                 }
             }
         }
-        ctx.mark_exhaustive(format!("node.interleave: observer position (0..{lister_steps}) x victim boundary (destruction and late creation) x victim advance (0..{max_adv})"));
+        if !ctx.quick() {
+            ctx.mark_exhaustive(format!("node.interleave: observer position (0..{lister_steps}) x victim boundary (destruction and late creation) x victim advance (0..{max_adv})"));
+        }
     }
     // ---- racing cleaners ----
     if ctx.part_enabled("cleaners.race") {
